@@ -121,6 +121,31 @@ def check(ctx):
                     syn.append(b_.value)
     if not syn:
         raise AnalysisError('convert_value no longer dispatches on the syntactic type')
+    # the same kind of test anywhere else in the parser where a DEFAULT is produced: a comparison of a member's written type
+    # (`<x>['type'] == 'REAL'`) in a function that stores a 'default' entry
+    builtin_kinds = set(dispatch.table(model, 'ber').cells)
+    pm = model.mod(PARSER)
+    syn_sites = {k: cv for k in syn}
+    for g_ in [n for n in ast.walk(pm.tree) if isinstance(n, ast.FunctionDef) and n is not cv]:
+        stores_default = any(isinstance(n_, ast.Subscript) and isinstance(n_.ctx, ast.Store) and isinstance(n_.slice, ast.Constant) and n_.slice.value == 'default' for n_ in walk_no_nested(g_))
+        if not stores_default:
+            continue
+        gv_ = sem.View(g_)
+        for node in walk_no_nested(g_):
+            if not isinstance(node, ast.Compare) or len(node.ops) != 1:
+                continue
+            consts_ = []
+            if isinstance(node.ops[0], (ast.Eq, ast.NotEq)):
+                pairs_ = ((node.left, node.comparators[0]), (node.comparators[0], node.left))
+                consts_ = [(a_, [b_.value]) for a_, b_ in pairs_ if isinstance(b_, ast.Constant) and isinstance(b_.value, str)]
+            elif isinstance(node.ops[0], (ast.In, ast.NotIn)) and isinstance(node.comparators[0], (ast.List, ast.Tuple, ast.Set)):
+                consts_ = [(node.left, [e_.value for e_ in node.comparators[0].elts if isinstance(e_, ast.Constant) and isinstance(e_.value, str)])]
+            for a_, vals_ in consts_:
+                if gv_.text(a_).endswith("['type']"):
+                    for v_ in vals_:
+                        if v_ in builtin_kinds and v_ not in syn:
+                            syn.append(v_)
+                            syn_sites[v_] = g_
     pd = model.func(BASE, 'Compiler.pre_process_default_value')
     comp_cls = pd._cls
     helpers = [pd]
@@ -151,9 +176,10 @@ def check(ctx):
     for k in syn:
         ok = k in res or k in fallback_same
         how = 're-converted on the resolved type' if k in res else ('untyped fallback is the same conversion' if k in fallback_same else '')
-        ctx.instance('C19.R2', "DEFAULT of syntactic kind '%s'" % k, how if ok else 'VIOLATION', node=cv, file=PARSER)
+        site_ = syn_sites.get(k, cv)
+        ctx.instance('C19.R2', "DEFAULT of syntactic kind '%s' (%s)" % (k, site_.name), how if ok else 'VIOLATION', node=site_, file=PARSER)
         if not ok:
-            ctx.violation('C19.R2', PARSER, cv, "asn1tools/parser.py::convert_value::kind '%s'" % k,
+            ctx.violation('C19.R2', PARSER, site_, "asn1tools/parser.py::%s::kind '%s'" % (site_.name, k),
                           "the parser converts a DEFAULT value of kind '%s' only when the member's type is written inline; for `x T DEFAULT ...` with "
                           "`T ::= %s` the untyped fallback yields a different value and the compiler does not re-convert after resolving T "
                           '(resolved kinds re-converted: %s)' % (k, k, sorted(res)), stmt="syntactic kind '%s'" % k)
